@@ -387,7 +387,7 @@ def pathsplit(ctx, rule):
     ut = repo.mod("utils")
     pref = ut.func("pathsplit")
     ctx.fn(pref.qualname)
-    for arg, exp in (("", []), ("/", []), ("/a", ["a"]), ("/a/b/", ["a", "b"]), ("a/b", ["a", "b"]), ("//a//b//", ["a", "", "b"]), ("/a/b/c.html", ["a", "b", "c.html"])):
+    for arg, exp in (("", []), ("/", []), ("/a", ["a"]), ("/a/b/", ["a", "b"]), ("a/b", ["a", "b"]), ("//a//b//", ["a", "", "b"]), ("//", []), ("///", []), ("/a/b/c.html", ["a", "b", "c.html"])):
         try:
             got = run_function(repo, pref, [arg])
         except Unknown as e:
